@@ -12,7 +12,7 @@ CASES = {'quick': 3000, 'thorough': 60000}
 SMALL_BLOCKS = 4      # runner: every 4th case keeps its stores in 2..10-token blocks
 GATES = {
     'quick': {'kind:meta:popitem': 50, 'kind:rawmeta:setexisting': 10, 'kind:rawmeta:popitem': 10, 'cases_in_small_blocks': 50, 'evaluations': 12000, 'steps_changing_raw_list': 4500, 'ordered_view_pairs': 30, 'families_seen': 6,
-              'read_probes': 100000, 'refusals_matched': 1200, 'meta_mapping_steps': 500, 'attribution_steps': 600, 'copied_view_edits': 100},
+              'read_probes': 100000, 'refusals_matched': 1200, 'meta_mapping_steps': 500, 'attribution_steps': 600, 'copied_view_edits': 100, 'window_permutations_of_mixed_kinds': 150},
     'thorough': {'evaluations': 400000, 'ordered_view_pairs': 30, 'families_seen': 6},
 }
 RULE = ('case = one accepted generated document; every view of every repeated field is read first (so all incremental index tables '
@@ -272,6 +272,23 @@ def run_case(col, r, idx):
             op = ops.Op('claim:' + what, f'{path}.{raw_attr}: {what} ({len(own)} standalone comments)', m, path, lambda: [], fn)
             attr = raw_attr
             col.count('attribution_steps')
+        if op is None and r.random() < 0.08:
+            # the same elements in another order, through one slice assignment on the raw list (deep copies of a window, shuffled):
+            # as many elements of every kind go in as come out, only their places differ
+            w = getattr(m, raw_attr)
+            cur = list(w)
+            if len(cur) >= 2:
+                a = r.randrange(len(cur) - 1)
+                b = r.randint(a + 2, min(len(cur), a + 4))
+                window = cur[a:b]
+                new = [copy.deepcopy(x) for x in window]
+                r.shuffle(new)
+                if len({type(x) for x in window}) > 1:
+                    col.count('window_permutations_of_mixed_kinds')
+                op = ops.Op('raw_list:permute-window', f'{path}.{raw_attr}[{a}:{b}] = <deep copies of these {b - a} elements, shuffled: '
+                            f'{[type(x).__name__ for x in new]}>', m, path, lambda: [], lambda: w.__setitem__(slice(a, b), new))
+                attr = raw_attr
+                col.count('window_permutations')
         try:
             op = op or g.build(f, path, m, attr, d, k)
         except (decimal.DecimalException, ZeroDivisionError):
@@ -313,7 +330,10 @@ def run_case(col, r, idx):
         for v2 in [raw_attr] + list(views):
             col.count(f'pair:{attr}->{v2}')
         if op.list_check:
-            msg = op.list_check()
+            try:
+                msg = op.list_check()
+            except Exception as e:
+                msg = f'reading the list after the call raised {type(e).__name__}: {e}'
             if msg:
                 col.violation(f'list-semantics:{op.kind}', f'{op.desc}: {msg}', wit)
                 return
